@@ -226,7 +226,7 @@ def assembly(cx):
             cx.check('C02.G1', opt[0].term == f'BinEncoder::emit_iter(arg8,[into<Record>({m.group(1)})])', f.path, opt[0].key(), 'OPT-record-built-from-the-updated-edns', opt[0].term, opt[0].loc)
         cx.must_pass('C02.G1', f, [opt[0]], via_blocks=[s.bb], what='rcode-high-set-before-OPT-is-emitted')
     # header written last carries the counts of what was emitted
-    cx.check('C02.G1', bool(re.search(r'Header\(var\(final_metadata\),HeaderCounts\(', rep[0].term)), f.path, rep[0].key(), 'header-back-patched-with-final-counts', rep[0].term[:120], rep[0].loc)
+    cx.check('C02.G1', bool(re.search(r'Header\(var\(\w+\),HeaderCounts\(', rep[0].term)), f.path, rep[0].key(), 'header-back-patched-with-final-counts', rep[0].term[:120], rep[0].loc)
 
 
 def readers(cx):
